@@ -144,6 +144,8 @@ def output_cases(draw, ndims=(1, 2, 3), hilbert=None, with_part=None, with_sink=
         "ordering": ("hilbert" if hilbert else "planar") if hilbert is not None else draw(
             st.sampled_from(["hilbert", "hilbert", "hilbert", "planar"])),
         "key_mode": draw(st.sampled_from(["uniform", "random", "random", "clustered", "cube"])),
+        # how the info file prints the bound keys: exactly, or as RAMSES does (E23.15: fifteen significant digits)
+        "key_format": draw(st.sampled_from([None, "e23.15", "e23.15"])),
         "ghost_p": draw(st.sampled_from([0.0, 0.5, 0.5, 1.0, 1.0])),
         "nout": draw(st.sampled_from([1, 2, 12, 345, 99999])),
         "use_minus1": draw(st.booleans()),
